@@ -213,10 +213,30 @@ NOT_APPLICABLE = {
 PENDING = ['C11', 'C19', 'C01', 'C02', 'C03', 'C04', 'C05', 'C06', 'C08', 'C09', 'C10', 'C12', 'C13', 'C15', 'C17', 'C18', 'C20']
 
 
+LINT_TEXT = (" Over the property's anchor files the check also runs the repository's contradiction rules, each with a positive "
+             "control: SW1 swapped same-named arguments, OV1 product overflowing before widening, N1 fold before use, D3 stale "
+             "sine/cosine after its angle is corrected, CP1 consistent renaming between sibling clones, NB1 normalised string "
+             "copy supersedes the raw argument, ZQ1 quotients that vanish together stay guarded after their operands are "
+             "reassigned, PRT1 sibling switches partition their labels alike, TW1 twin guards agree on fabs.")
+
+EXTRA_TEXT = {
+    'C04': " (H2) Scale homogeneity: x, y and k returned by TransverseMercator/PolarStereographic::Forward have degree 1 in "
+           "the scale k0 on every path, gamma degree 0; Reverse returns k of degree 1 and angles of degree 0.",
+    'C06': " (H2) Scale homogeneity of TransverseMercator and TransverseMercatorExact Forward/Reverse: x, y, k of degree 1 in "
+           "k0 and gamma, lat, lon of degree 0 on every path (a scale applied in one branch only is a mixed degree).",
+    'C11': " (H2) Scale homogeneity of the outputs of PolarStereographic and LambertConformalConic Forward/Reverse.",
+    'C10': " (RW1) In the chain of literal rewrites of DMS::Decode a pattern that contains the product character of other "
+           "rewrites (the pair '' -> \") comes after all of them, and a pattern containing another pattern comes before it.",
+    'C09': " (ZQ1) found and fixed: DAuxLatitude::DParametric evaluated a 0/0 quotient after taking reciprocals of its "
+           "operands (exact rhumb area NaN for east-west courses).",
+}
+
+
 def manifest():
     checks = []
     for pid in sorted(CHECKS):
-        c = CHECKS[pid]
+        c = dict(CHECKS[pid])
+        c['text'] = c['text'] + EXTRA_TEXT.get(pid, '') + LINT_TEXT
         checks.append({
             'property_id': pid,
             'quick_cmd': 'bin/glcheck %s --tier quick' % pid,
